@@ -13,6 +13,7 @@ import (
 	"encoding/json"
 	"fmt"
 	"io"
+	"math"
 	"net/http"
 	"net/url"
 	"strings"
@@ -708,6 +709,8 @@ func (t *streamableHTTPClientTransport) connectGetSSE(ctx context.Context) error
 // Handle GET SSE event stream
 func (t *streamableHTTPClientTransport) handleGetSSEEvents(ctx context.Context, body io.ReadCloser) error {
 	scanner := bufio.NewScanner(body)
+	// The default token limit of 64 KiB would end the listening stream on the first larger event.
+	scanner.Buffer(make([]byte, 0, 64*1024), math.MaxInt32)
 	var eventID, eventData string
 
 	for scanner.Scan() {
